@@ -13,8 +13,16 @@ CHECKS = [
   "text": "For every curve of N=6 (plateau search: 12) symbolic samples, every interval [a,b] in any order incl. a==b and bounds equal to samples, and every per-pass optimiser output, z3 shows that each pass of the real fit()/_fit()/compute_emodulus_vs_mindelta selects exactly the specified closed-interval point set of the requested segment and hands the optimiser k*x on it; relative-cp passes are anchored at the previously reported contact point, the plateau scan grid/optimum/final bound relations hold and the fitter's range attributes are restored.",
   "note": "lmfit.minimize and scipy.signal.filtfilt are contract stubs (arbitrary values); reals; N<=6 (12-14 plateau), num_samples<=3; optimiser convergence outside",
   "technique": SYMX},
+ {"id": "C10", "level": "other",
+  "text": "z3 compares, on every path of the real fit_model (absolute and 4-pass relative-cp, k symbolic), compute_poc, model/residual wrappers and compute_contact_point_weights, the pre- and post-state of every argument object (all parameter attributes, range/method_kws/step list/option dict, arrays) and shows them term-identical; for the two-step histories call(x); edit x in place; call(x) it shows the same number of optimiser/pipeline runs and term-equal visible state as a twin curve given fresh equal-valued copies (params_initial passed and returned, option dicts, step lists, via apply_preprocessing and via fit_model).",
+  "note": "abstract preprocessing steps; lmfit.minimize functional contract stub; N=6; histories of two calls (longer: C03)",
+  "technique": SYMX},
+ {"id": "C11", "level": "other",
+  "text": "z3 proves for all data, parameters and k>0 that the residual _fit hands to the optimiser (abscissa k*x, contact point k*cp) equals the k=1 residual at E*k^p (p=3/2 paraboloid, 2 cone/pyramid), i.e. both least-squares problems coincide up to the stated bijection; on every path of the real _fit the reported contact point/xmin/xmax/fit column are in measured units; and in every optimiser call of an absolute, relative-cp (4 passes) or plateau (n+1) fit the initial contact point is exactly k*cp_user while the caller's object is unchanged.",
+  "note": "reals; optimiser equivariance (that MINPACK reaches the mapped minimiser) outside; stubs as C04/C05",
+  "technique": SYMX},
 ]
 _PENDING = "check not built yet in this round (planned in DESIGN.md section 4)"
 NOT_APPLICABLE = [
  {"property_id": "C01", "reason": "recovery of generating parameters is a statement about MINPACK/Nelder-Mead convergence (iterative compiled floating point, data-dependent trip count, noise): not encodable for a solver; stubbing the optimiser would assume the conclusion. Optimiser-independent parts are decided under C04/C05/C11/C13."},
-] + [{"property_id": f"C{i:02d}", "reason": _PENDING} for i in range(3, 21) if i not in (4, 5)]
+] + [{"property_id": f"C{i:02d}", "reason": _PENDING} for i in range(3, 21) if i not in (4, 5, 10, 11)]
